@@ -478,6 +478,10 @@ func parkedInRepo(dump string) (site string, summary string, ok bool) {
 			}
 		}
 		if fn == "" {
+			// a goroutine of the harness that is busy means the harness is working, not the library hanging
+			if strings.Contains(blk, "verif/") && !parked[m[1]] && m[1] != "sleep" && m[1] != "IO wait" && m[1] != "GC worker (idle)" {
+				return "", "", false
+			}
 			continue
 		}
 		n++
